@@ -92,7 +92,7 @@ state `st` only: two arbitrary pre-histories of the SAME compiled expression —
 points, other groups (`CopyReset` copies share the node evaluators without a lambda node below them, and their
 cache), other entry paths — give the same answer: the specialisation CACHE carries nothing from one evaluation to
 the next. No bound on the histories or on the expression. `st` is the state of the asking copy alone: its own
-functions and those of its own lambda nodes (`st.lams`; they were shared between the copies until `fix:` dcda92d,
+functions and those of its own lambda nodes (`st.lams`; they were shared between the copies until `fix:` 8ed14ac,
 see `old_nested_lambda_state_shared` / `nested_lambda_per_copy` below, where the cache a copy sees is put together
 from its own and the shared node evaluators and satisfies the same invariant). -/
 theorem history_independent {F : Type} (ctx : Ctx F) (e : Expr F)
@@ -315,7 +315,7 @@ theorem legacy_retry_never_terminates :
 /-! ### Lambda nodes nested in an expression, and the groups that use copies of it
 
 `World` (Kap/Model/C04.lean) is what exists at run time for one compiled expression used by several groups since
-`fix:` dcda92d: every `CopyReset` copy has its own `Funcs`, its own lambda nodes with their states and its own copies of
+`fix:` 8ed14ac: every `CopyReset` copy has its own `Funcs`, its own lambda nodes with their states and its own copies of
 the node evaluators above a lambda node; all other node evaluators (and their cache) exist once. `OldWorld` is the code
 before the fix: ONE state per lambda node for all copies. `refRun` gives every group its own histories. -/
 
@@ -323,7 +323,7 @@ before the fix: ONE state per lambda node for all copies. `refRun` gives every g
 def toyCtx : Ctx Int :=
   { ops := Legacy.toyOps, tbl := Gen.table, sigs := Gen.sigs, reMatch := fun _ _ => none, call := fun _ _ => none }
 
-/-- Counterexample about the code BEFORE dcda92d (was finding `nested-lambda-state-shared`, regression witness
+/-- Counterexample about the code BEFORE 8ed14ac (was finding `nested-lambda-state-shared`, regression witness
 corpus/C04/fixed-nested-lambda-state-shared.ops): `(lambda: count()) > 1` asked once by group 0 and once by group 1
 through the predicate path, both points well typed: the lambda node's single counter made group 1's FIRST point answer
 true; the reference answers false twice — and so does the world of today's code. -/
@@ -341,7 +341,7 @@ now, any float arithmetic, regex matcher and type-respecting library oracle, any
 depth, stateful functions anywhere), any sequence of questions (group, entry path, scope) at well-typed points, asked in
 any interleaving of the groups of the freshly compiled expression and its copies: the answers of the code's world — the
 copies share every node evaluator without a lambda node below it, cache included, and own everything else — are exactly
-the reference answers, in which every group has its own histories. (Until dcda92d this needed the proviso "no nested
+the reference answers, in which every group has its own histories. (Until 8ed14ac this needed the proviso "no nested
 lambda calls a stateful function, or one group asks": `old_nested_lambda_state_shared`.) -/
 theorem nested_lambda_per_copy {F : Type} (ctx : Ctx F) (htbl : ctx.tbl = Gen.table) (hsigs : ctx.sigs = Gen.sigs)
     (horacle : ∀ fn args v t, ctx.call fn args = some (.ok v) → sigType ctx fn (args.map Value.ty) = some t → v.ty = t)
